@@ -198,7 +198,7 @@ def write_union(encoder, datum, schema, named_schemas, fname, options):
                     candidate = named_schemas[record_type]
                     record_type = extract_record_type(candidate)
 
-                if record_type == "record":
+                if record_type == "record" or record_type == "error":
                     logical_type = extract_logical_type(candidate)
                     if logical_type:
                         prepare = LOGICAL_WRITERS.get(logical_type)
